@@ -300,3 +300,26 @@ Definition from_bond_stereo (isH : Z -> bool) (env_be env_eb : option (Z * Z * o
               | Err e => Err e
               end
   end.
+
+(* to_rdkit_molecule, fourth loop, the whole body for the bond (n, m) yielded by data.bonds() with label [s]:
+     if b.stereo is None: continue
+     nm = data._stereo_cis_trans_centers.get(n)                      -- [center]
+     if nm is None or n not in nm or m not in nm: continue           -- only plain double bonds, no cumulenes
+     n1, m1, *_ = data.stereogenic_cis_trans[nm]                     -- [env] = the registry entry under the key nm
+     rb.SetStereoAtoms(n1, m1); rb.SetStereo(_cis if b.stereo else _trans)
+   Result: None = bond left without a label, Some (ref atom at begin, ref atom at end, label). *)
+Definition to_bond_stereo_sel (center : option (Z * Z)) (n m : Z) (env : option (Z * Z * option Z * option Z))
+           (s : option bool) : pyres (option (Z * Z * string)) :=
+  match s with
+  | None => Ok None
+  | Some s' =>
+      match center with
+      | None => Ok None
+      | Some (a, b) =>
+          if negb ((n =? a) || (n =? b)) || negb ((m =? a) || (m =? b)) then Ok None
+          else match env with
+               | None => Err KeyError
+               | Some e => Ok (Some (to_bond_stereo e s'))
+               end
+      end
+  end.
